@@ -658,12 +658,10 @@ func runTwin(x *Exec, prop string) {
 					if inTxn || len(st.Args) != 2 {
 						continue
 					}
-					// only when the row exists and the new key differs from the old one bit for bit
-					if Canon(st.Args[0].Arg()) == Canon(st.Args[1].Arg()) {
-						continue
-					}
-					hit, herr := c.Query(strings.ReplaceAll("SELECT count(*) FROM {T} WHERE k = ?", "{T}", "n"), st.Args[1].Arg())
-					if herr != nil || len(hit) != 1 || hit[0][0] != "i:1" {
+					// only when exactly one row matches and the new key differs bit for bit from the key that row has
+					// (WHERE k = 1.0 finds the row keyed 1; assigning 1 to it changes nothing)
+					hit, herr := c.Query("SELECT k FROM n WHERE k = ?", st.Args[1].Arg())
+					if herr != nil || len(hit) != 1 || hit[0][0] == Canon(st.Args[0].Arg()) {
 						continue
 					}
 					_, es := c.Exec("UPDATE "+t+" SET k = ? WHERE k = ?", args(st.Args)...)
